@@ -315,6 +315,23 @@ Proof.
   repeat constructor; lra.
 Qed.
 
+(** ** "Round(x,d) is ... within half a unit of the d-th significant digit of x" for a call made at ANY point of a process: a history of Round
+    requests (scalar = table of one entry, Vector = table of one row, Matrix), any number type (doubles with NaN / infinite / zero entries included),
+    any digits: the answer to each request is the answer of the pure function to that request alone, whatever was requested before or after;
+    and a history whose requests all have digits <= 7 never exits *)
+Theorem C17_round_history_independent {T} (Ops : NumOps T) (pre post : list (Z * list (list T))) (q : Z * list (list T)) (outs : list (list (list T))) :
+  round_run Ops (pre ++ q :: post) = Ok outs ->
+  length outs = length (pre ++ q :: post) /\ round_table Ops (snd q) (fst q) = Ok (nth (length pre) outs []).
+Proof. exact (round_history_independent Ops pre post q outs). Qed.
+Print Assumptions C17_round_history_independent.
+
+Theorem C17_round_history_total {T} (Ops : NumOps T) (qs : list (Z * list (list T))) :
+  List.Forall (fun q => (fst q <= 7)%Z) qs -> exists outs, round_run Ops qs = Ok outs.
+Proof. exact (round_run_total Ops qs). Qed.
+Print Assumptions C17_round_history_total.
+Example C17_round_history_nonvacuous : exists outs, round_run ROps [(2%Z, [[PI]]); (5%Z, [[0; -1]]); (5%Z, [[PI]; [2]])] = Ok outs.
+Proof. apply round_run_total. repeat constructor; cbn; lia. Qed.
+
 (** ** Relative_Difference over R: symmetric, in [0, 2], and zero exactly for equal arguments *)
 Theorem C17_relative_difference_spec (a b : R) :
   g_Relative_Difference ROps a b = g_Relative_Difference ROps b a /\
